@@ -131,12 +131,18 @@ Theorem C27_refuted_quote_unquote_newline :
 Proof. exact refuted_quote_unquote_newline. Qed.
 Print Assumptions C27_refuted_quote_unquote_newline.
 
-(* a private-use character is printed as a hex escape without terminator: U+E000 then 1 reads back as U+E0001 *)
-Theorem C27_refuted_private_use :
-  exists lv b, literal_value w_pu = Some lv /\ token_body (css_display lv) = Some b /\
-               css_decode b = [917505] /\ css_decode w_pu = w_pu.
-Proof. exact refuted_private_use. Qed.
-Print Assumptions C27_refuted_private_use.
+(* the private-use part of F33 is fixed (71d4ea9): U+E000 then 1 is printed as "\e000 1" and reads back *)
+Example C27_private_use_example :
+  exists lv, literal_value w_pu = Some lv /\ css_display lv = [34; 92; 101; 48; 48; 48; 32; 49; 34] /\
+             token_denotes (css_display lv) (css_decode w_pu) = true.
+Proof. exact private_use_example. Qed.
+
+(* what is left of it: before a tab the escape is still unterminated and the tab is lost on reading *)
+Theorem C27_refuted_private_use_tab :
+  exists lv b, literal_value w_put = Some lv /\ token_body (css_display lv) = Some b /\
+               css_decode b = [57344] /\ css_decode w_put = w_put.
+Proof. exact refuted_private_use_tab. Qed.
+Print Assumptions C27_refuted_private_use_tab.
 
 (* the escaped-space part of F33 is fixed (6aead77): "a\ " is printed as a well-formed token denoting "a " *)
 Example C27_escaped_space_example :
